@@ -141,6 +141,20 @@ def check_odt_body():
                                "odt_extractor._extract_full_text")
 
 
+def check_odg_text():
+    OG = _mod("open_office.odg_extractor")
+    return _singles_then_pairs(TR.gen_odg_roots(), lambda d: OG._extract_full_text(to_et(d)), TR.odg_text, "odg_extractor._extract_full_text")
+
+
+def check_pptx_paragraphs():
+    PX = _mod("ms_modern.pptx_extractor")
+    r = Result()
+    for tx in TR.gen_pptx_bodies():
+        ok, w = _cmp("pptx_extractor._extract_text_from_paragraphs", tx.brief(), PX._extract_text_from_paragraphs(to_et(tx)), TR.pptx_body_text(tx))
+        r.add("paragraphs", ok, w)
+    return r
+
+
 def check_html_body():
     H = _mod("html_extractor")
     return _singles_then_pairs(TR.gen_html_bodies(), lambda d: H._HtmlTextExtractor(to_hdict(N("root", d))).extract(),
@@ -264,7 +278,7 @@ CHECKS = {
     "docx.paragraph": check_docx_paragraph, "docx.table": check_docx_table, "docx.body": check_docx_body,
     "odt.body": check_odt_body, "html.extract": check_html_body, "odf.element_text": check_odf_text,
     "ods.sheet": check_ods_sheet, "xlsx.format": check_xlsx_format, "xls.format": check_xls_format,
-    "dt.slides": check_dt_slides,
+    "dt.slides": check_dt_slides, "odg.text": check_odg_text, "pptx.paragraphs": check_pptx_paragraphs,
 }
 
 
@@ -292,6 +306,7 @@ FUNC_OF_CHECK = {
     "html.extract": "html_extractor.py::_HtmlTextExtractor.extract", "ods.sheet": "ods_extractor.py::_extract_sheet",
     "xlsx.format": "xlsx_extractor.py::_format_sheet_as_text", "xls.format": "xls_extractor.py::_format_sheet_as_text",
     "odf.element_text": "_shared.py::element_text",
+    "odg.text": "odg_extractor.py::_extract_full_text", "pptx.paragraphs": "pptx_extractor.py::_extract_text_from_paragraphs",
 }
 
 # obligation id fragment -> (check, cases, kinds)
@@ -307,6 +322,7 @@ WITNESS_MAP = [
     ("_extract_full_text_from_body/inv-preserve#blocks.sq[content-control]", "docx.body", ["content-control"], None),
     ("_extract_full_text_from_body/", "docx.body", ["plain", "content-control"], None),
     ("_shared.py::", "odf.element_text", None, None),
+    ("xls_extractor.py::_format_sheet_as_text/", "xls.format", None, None),
     ("PptSlideContent.text_combined", "dt.slides", ["PptSlideContent"], None),
     ("OdpSlide.text_combined", "dt.slides", ["OdpSlide"], None),
     ("PptxSlide.get_text", "dt.slides", ["PptxSlide"], None),
